@@ -166,341 +166,3 @@ Print Assumptions C05_Free_speeds_are_V_FM.
 Theorem C05_Translation_speeds_are_v_FM u0 u1 u2 : Hu ROps (Translation_H ROps) (u0 :: u1 :: u2 :: nil) = ((0,0,0),(u0,u1,u2)).
 Proof. exact (Translation_speeds_are_v_FM u0 u1 u2). Qed.
 Print Assumptions C05_Translation_speeds_are_v_FM.
-
-Theorem C05_Weld_jet : moves_with (fun _ => Weld_X ROps) (Hu ROps Weld_H nil).
-Proof. exact (@Weld_jet). Qed.
-Print Assumptions C05_Weld_jet.
-
-Theorem C05_Pin_jet q u : moves_with (fun t => Pin_X ROps (q + t*u)) (Hu ROps (Pin_H ROps) (u :: nil)).
-Proof. exact (Pin_jet q u). Qed.
-Print Assumptions C05_Pin_jet.
-
-Theorem C05_Slider_jet q u : moves_with (fun t => Slider_X ROps (q + t*u)) (Hu ROps (Slider_H ROps) (u :: nil)).
-Proof. exact (Slider_jet q u). Qed.
-Print Assumptions C05_Slider_jet.
-
-Theorem C05_Screw_jet pitch q u : moves_with (fun t => Screw_X ROps pitch (q + t*u)) (Hu ROps (Screw_H ROps pitch) (u :: nil)).
-Proof. exact (Screw_jet pitch q u). Qed.
-Print Assumptions C05_Screw_jet.
-
-Theorem C05_Universal_jet q0 q1 u0 u1 :
-  moves_with (fun t => Universal_X ROps (q0 + t*u0, q1 + t*u1)) (Hu ROps (Universal_H ROps (q0,q1)) (u0 :: u1 :: nil)).
-Proof. exact (Universal_jet q0 q1 u0 u1). Qed.
-Print Assumptions C05_Universal_jet.
-
-Theorem C05_Cylinder_jet q0 q1 u0 u1 :
-  moves_with (fun t => Cylinder_X ROps (q0 + t*u0, q1 + t*u1)) (Hu ROps (Cylinder_H ROps) (u0 :: u1 :: nil)).
-Proof. exact (Cylinder_jet q0 q1 u0 u1). Qed.
-Print Assumptions C05_Cylinder_jet.
-
-Theorem C05_BendStretch_jet q0 q1 u0 u1 :
-  moves_with (fun t => BendStretch_X ROps (q0 + t*u0, q1 + t*u1)) (Hu ROps (BendStretch_H ROps (q0,q1)) (u0 :: u1 :: nil)).
-Proof. exact (BendStretch_jet q0 q1 u0 u1). Qed.
-Print Assumptions C05_BendStretch_jet.
-
-Theorem C05_Planar_jet q0 q1 q2 u0 u1 u2 :
-  moves_with (fun t => Planar_X ROps (q0 + t*u0, q1 + t*u1, q2 + t*u2)) (Hu ROps (Planar_H ROps) (u0 :: u1 :: u2 :: nil)).
-Proof. exact (Planar_jet q0 q1 q2 u0 u1 u2). Qed.
-Print Assumptions C05_Planar_jet.
-
-Theorem C05_Translation_jet q0 q1 q2 u0 u1 u2 :
-  moves_with (fun t => Translation_X ROps (q0 + t*u0, q1 + t*u1, q2 + t*u2)) (Hu ROps (Translation_H ROps) (u0 :: u1 :: u2 :: nil)).
-Proof. exact (Translation_jet q0 q1 q2 u0 u1 u2). Qed.
-Print Assumptions C05_Translation_jet.
-
-Theorem C05_Gimbal_jet q0 q1 q2 u0 u1 u2 :
-  moves_with (fun t => Gimbal_X ROps (q0 + t*u0, q1 + t*u1, q2 + t*u2)) (Hu ROps (Gimbal_H ROps (q0,q1,q2)) (u0 :: u1 :: u2 :: nil)).
-Proof. exact (Gimbal_jet q0 q1 q2 u0 u1 u2). Qed.
-Print Assumptions C05_Gimbal_jet.
-
-Theorem C05_Bushing_jet q0 q1 q2 p0 p1 p2 u0 u1 u2 u3 u4 u5 :
-  moves_with (fun t => Bushing_X ROps (q0 + t*u0, q1 + t*u1, q2 + t*u2) (p0 + t*u3, p1 + t*u4, p2 + t*u5))
-             (Hu ROps (Bushing_H ROps (q0,q1,q2)) (u0::u1::u2::u3::u4::u5::nil)).
-Proof. exact (Bushing_jet q0 q1 q2 p0 p1 p2 u0 u1 u2 u3 u4 u5). Qed.
-Print Assumptions C05_Bushing_jet.
-
-Theorem C05_Ball_jet_e q0 q1 q2 w0 w1 w2 : cos q1 <> 0 ->
-  let qd := Ball_Ne ROps (q0,q1,q2) (w0,w1,w2) in
-  moves_with (fun t => Ball_Xe ROps (q0 + t*v3_0 qd, q1 + t*v3_1 qd, q2 + t*v3_2 qd)) (Hu ROps (Ball_H ROps) (w0 :: w1 :: w2 :: nil)).
-Proof. exact (Ball_jet_e q0 q1 q2 w0 w1 w2). Qed.
-Print Assumptions C05_Ball_jet_e.
-
-Theorem C05_Ball_jet_q e0 e1 e2 e3' w0 w1 w2 : e0*e0+e1*e1+e2*e2+e3'*e3' <> 0 ->
-  let qd := Ball_Nq ROps (e0,e1,e2,e3') (w0,w1,w2) in
-  moves_with (fun t => Ball_Xq ROps (e0 + t*v4_0 qd, e1 + t*v4_1 qd, e2 + t*v4_2 qd, e3' + t*v4_3 qd)) (Hu ROps (Ball_H ROps) (w0 :: w1 :: w2 :: nil)).
-Proof. exact (Ball_jet_q e0 e1 e2 e3' w0 w1 w2). Qed.
-Print Assumptions C05_Ball_jet_q.
-
-Theorem C05_Free_jet_e q0 q1 q2 p0 p1 p2 w0 w1 w2 v0 v1 v2 : cos q1 <> 0 ->
-  let qd := Ball_Ne ROps (q0,q1,q2) (w0,w1,w2) in
-  moves_with (fun t => Free_Xe ROps (q0 + t*v3_0 qd, q1 + t*v3_1 qd, q2 + t*v3_2 qd) (p0 + t*v0, p1 + t*v1, p2 + t*v2))
-             (Hu ROps (Free_H ROps) (w0::w1::w2::v0::v1::v2::nil)).
-Proof. exact (Free_jet_e q0 q1 q2 p0 p1 p2 w0 w1 w2 v0 v1 v2). Qed.
-Print Assumptions C05_Free_jet_e.
-
-Theorem C05_Free_jet_q e0 e1 e2 e3' p0 p1 p2 w0 w1 w2 v0 v1 v2 : e0*e0+e1*e1+e2*e2+e3'*e3' <> 0 ->
-  let qd := Ball_Nq ROps (e0,e1,e2,e3') (w0,w1,w2) in
-  moves_with (fun t => Free_Xq ROps (e0 + t*v4_0 qd, e1 + t*v4_1 qd, e2 + t*v4_2 qd, e3' + t*v4_3 qd) (p0 + t*v0, p1 + t*v1, p2 + t*v2))
-             (Hu ROps (Free_H ROps) (w0::w1::w2::v0::v1::v2::nil)).
-Proof. exact (Free_jet_q e0 e1 e2 e3' p0 p1 p2 w0 w1 w2 v0 v1 v2). Qed.
-Print Assumptions C05_Free_jet_q.
-
-Theorem C05_reversed_is_inverse X : is_rot (fst X) ->
-  xf_compose ROps (rev_X ROps X) X = (I33, (0,0,0)) /\ xf_compose ROps X (rev_X ROps X) = (I33, (0,0,0)).
-Proof. exact (reversed_is_inverse X). Qed.
-Print Assumptions C05_reversed_is_inverse.
-
-Theorem C05_reversed_jet X V : is_rot (fst (X 0)) -> moves_with X V ->
-  moves_with (fun t => rev_X ROps (X t)) (rev_col ROps (rev_X ROps (X 0)) V).
-Proof. exact (reversed_jet X V). Qed.
-Print Assumptions C05_reversed_jet.
-
-Theorem C05_rev_col_linear Xr H u : rev_col ROps Xr (Hu ROps H u) = Hu ROps (map (rev_col ROps Xr) H) u.
-Proof. exact (rev_col_linear Xr H u). Qed.
-Print Assumptions C05_rev_col_linear.
-
-Theorem C05_Pin_rev_H q : rev_H ROps (Pin_X ROps q) (Pin_H ROps) = (((0,0,-1),(0,0,0)) :: nil).
-Proof. exact (Pin_rev_H q). Qed.
-Print Assumptions C05_Pin_rev_H.
-
-Theorem C05_Slider_rev_H q : rev_H ROps (Slider_X ROps q) (Slider_H ROps) = (((0,0,0),(-1,0,0)) :: nil).
-Proof. exact (Slider_rev_H q). Qed.
-Print Assumptions C05_Slider_rev_H.
-
-Theorem C05_Cylinder_rev_H q0 q1 : rev_H ROps (Cylinder_X ROps (q0,q1)) (Cylinder_H ROps) = (((0,0,-1),(0,0,0)) :: ((0,0,0),(0,0,-1)) :: nil).
-Proof. exact (Cylinder_rev_H q0 q1). Qed.
-Print Assumptions C05_Cylinder_rev_H.
-
-Theorem C05_Screw_rev_H pitch q : rev_H ROps (Screw_X ROps pitch q) (Screw_H ROps pitch) = (((0,0,-1),(0,0,-pitch)) :: nil).
-Proof. exact (Screw_rev_H pitch q). Qed.
-Print Assumptions C05_Screw_rev_H.
-
-Theorem C05_Translation_rev_H q : rev_H ROps (Translation_X ROps q) (Translation_H ROps) = (((0,0,0),(-1,0,0)) :: ((0,0,0),(0,-1,0)) :: ((0,0,0),(0,0,-1)) :: nil).
-Proof. exact (Translation_rev_H q). Qed.
-Print Assumptions C05_Translation_rev_H.
-
-Theorem C05_C05_hyps_satisfiable : cos (PI/3) <> 0 /\ (1/2)*(1/2) + (1/2)*(1/2) + (1/2)*(1/2) + (1/2)*(1/2) <> 0 /\ is_rot (RotZ ROps (PI/3)).
-Proof. exact (@C05_hyps_satisfiable). Qed.
-Print Assumptions C05_C05_hyps_satisfiable.
-
-
-
-Theorem C05_Line_speeds_meaning R u0 u1 : is_rot R ->
-  m33_Tmulv ROps R (fst (Hu ROps (Line_H ROps R) (u0 :: u1 :: nil))) = (u0, u1, 0).
-Proof. exact (Line_speeds_meaning R u0 u1). Qed.
-Print Assumptions C05_Line_speeds_meaning.
-
-Theorem C05_Line_jet_e q0 q1 q2 u0 u1 : cos q1 <> 0 ->
-  let qd := Line_Ne ROps (q0,q1,q2) (u0,u1) in
-  moves_with (fun t => Ball_Xe ROps (q0 + t*v3_0 qd, q1 + t*v3_1 qd, q2 + t*v3_2 qd))
-             (Hu ROps (Line_H ROps (Rxyz ROps (q0,q1,q2))) (u0 :: u1 :: nil)).
-Proof. exact (Line_jet_e q0 q1 q2 u0 u1). Qed.
-Print Assumptions C05_Line_jet_e.
-
-Theorem C05_Line_jet_q e0 e1 e2 e3' u0 u1 : e0*e0+e1*e1+e2*e2+e3'*e3' <> 0 ->
-  let qd := Line_Nq ROps (e0,e1,e2,e3') (u0,u1) in
-  moves_with (fun t => Ball_Xq ROps (e0 + t*v4_0 qd, e1 + t*v4_1 qd, e2 + t*v4_2 qd, e3' + t*v4_3 qd))
-             (Hu ROps (Line_H ROps (quatR ROps (e0,e1,e2,e3'))) (u0 :: u1 :: nil)).
-Proof. exact (Line_jet_q e0 e1 e2 e3' u0 u1). Qed.
-Print Assumptions C05_Line_jet_q.
-
-Theorem C05_FreeLine_jet_e q0 q1 q2 p0 p1 p2 u0 u1 v0 v1 v2 : cos q1 <> 0 ->
-  let qd := Line_Ne ROps (q0,q1,q2) (u0,u1) in
-  moves_with (fun t => Free_Xe ROps (q0 + t*v3_0 qd, q1 + t*v3_1 qd, q2 + t*v3_2 qd) (p0 + t*v0, p1 + t*v1, p2 + t*v2))
-             (Hu ROps (Line_H ROps (Rxyz ROps (q0,q1,q2)) ++ Translation_H ROps) (u0 :: u1 :: v0 :: v1 :: v2 :: nil)).
-Proof. exact (FreeLine_jet_e q0 q1 q2 p0 p1 p2 u0 u1 v0 v1 v2). Qed.
-Print Assumptions C05_FreeLine_jet_e.
-
-Theorem C05_FreeLine_jet_q e0 e1 e2 e3' p0 p1 p2 u0 u1 v0 v1 v2 : e0*e0+e1*e1+e2*e2+e3'*e3' <> 0 ->
-  let qd := Line_Nq ROps (e0,e1,e2,e3') (u0,u1) in
-  moves_with (fun t => Free_Xq ROps (e0 + t*v4_0 qd, e1 + t*v4_1 qd, e2 + t*v4_2 qd, e3' + t*v4_3 qd) (p0 + t*v0, p1 + t*v1, p2 + t*v2))
-             (Hu ROps (Line_H ROps (quatR ROps (e0,e1,e2,e3')) ++ Translation_H ROps) (u0 :: u1 :: v0 :: v1 :: v2 :: nil)).
-Proof. exact (FreeLine_jet_q e0 e1 e2 e3' p0 p1 p2 u0 u1 v0 v1 v2). Qed.
-Print Assumptions C05_FreeLine_jet_q.
-
-Theorem C05_Sph_doc az0 s0 ze0 s1 ax s2 q0 q1 q2 :
-  let o := mkSc az0 s0 ze0 s1 ax s2 in
-  Sph_X ROps o (q0,q1,q2) =
-  xf_compose ROps (m33_mul ROps (RotZ ROps (s0*q0+az0)) (RotY ROps (s1*q1+ze0)), (0,0,0))
-                  (I33, v3_scale ROps (s2*q2) (if ax then ex ROps else ez ROps)).
-Proof. exact (Sph_doc az0 s0 ze0 s1 ax s2 q0 q1 q2). Qed.
-Print Assumptions C05_Sph_doc.
-
-Theorem C05_Sph_jet az0 s0 ze0 s1 ax s2 q0 q1 q2 u0 u1 u2 :
-  let o := mkSc az0 s0 ze0 s1 ax s2 in
-  moves_with (fun t => Sph_X ROps o (q0 + t*u0, q1 + t*u1, q2 + t*u2)) (Hu ROps (Sph_H ROps o (q0,q1,q2)) (u0 :: u1 :: u2 :: nil)).
-Proof. exact (Sph_jet az0 s0 ze0 s1 ax s2 q0 q1 q2 u0 u1 u2). Qed.
-Print Assumptions C05_Sph_jet.
-
-Theorem C05_Ell_on_surface a b c R : a <> 0 -> b <> 0 -> c <> 0 -> is_rot R ->
-  let p := Ell_p ROps (a,b,c) R in (v3_0 p / a)*(v3_0 p / a) + (v3_1 p / b)*(v3_1 p / b) + (v3_2 p / c)*(v3_2 p / c) = 1.
-Proof. exact (Ell_on_surface a b c R). Qed.
-Print Assumptions C05_Ell_on_surface.
-
-Theorem C05_Ell_jet_e a b c q0 q1 q2 w0 w1 w2 : cos q1 <> 0 ->
-  let qd := Ball_Ne ROps (q0,q1,q2) (w0,w1,w2) in
-  moves_with (fun t => Ell_Xe ROps (a,b,c) (q0 + t*v3_0 qd, q1 + t*v3_1 qd, q2 + t*v3_2 qd))
-             (Hu ROps (Ell_H ROps (a,b,c) (Rxyz ROps (q0,q1,q2))) (w0 :: w1 :: w2 :: nil)).
-Proof. exact (Ell_jet_e a b c q0 q1 q2 w0 w1 w2). Qed.
-Print Assumptions C05_Ell_jet_e.
-
-Theorem C05_Ell_jet_q a b c e0 e1 e2 e3' w0 w1 w2 : e0*e0+e1*e1+e2*e2+e3'*e3' <> 0 ->
-  let qd := Ball_Nq ROps (e0,e1,e2,e3') (w0,w1,w2) in
-  moves_with (fun t => Ell_Xq ROps (a,b,c) (e0 + t*v4_0 qd, e1 + t*v4_1 qd, e2 + t*v4_2 qd, e3' + t*v4_3 qd))
-             (Hu ROps (Ell_H ROps (a,b,c) (quatR ROps (e0,e1,e2,e3'))) (w0 :: w1 :: w2 :: nil)).
-Proof. exact (Ell_jet_q a b c e0 e1 e2 e3' w0 w1 w2). Qed.
-Print Assumptions C05_Ell_jet_q.
-
-Theorem C05_Ell_normal_aligned_refuted : exists a b c n0 n1 n2, n0*n0+n1*n1+n2*n2 = 1 /\
-  v3_cross ROps (n0/a, n1/b, n2/c) (n0,n1,n2) <> (0,0,0).
-Proof. exact (@Ell_normal_aligned_refuted). Qed.
-Print Assumptions C05_Ell_normal_aligned_refuted.
-
-
-
-Theorem C05_Ratan2_cos_sin c s : c*c + s*s = 1 -> cos (Ratan2 s c) = c /\ sin (Ratan2 s c) = s.
-Proof. exact (Ratan2_cos_sin c s). Qed.
-Print Assumptions C05_Ratan2_cos_sin.
-
-Theorem C05_Slider_fit_roundtrip q : Slider_fitT (snd (Slider_X ROps q)) = q.
-Proof. exact (Slider_fit_roundtrip q). Qed.
-Print Assumptions C05_Slider_fit_roundtrip.
-
-Theorem C05_Slider_fitV_roundtrip u : Slider_fitV (Hu ROps (Slider_H ROps) (u :: nil)) = u.
-Proof. exact (Slider_fitV_roundtrip u). Qed.
-Print Assumptions C05_Slider_fitV_roundtrip.
-
-Theorem C05_Translation_fit_roundtrip q : Translation_fitT (snd (Translation_X ROps q)) = q.
-Proof. exact (Translation_fit_roundtrip q). Qed.
-Print Assumptions C05_Translation_fit_roundtrip.
-
-Theorem C05_Translation_fitV_roundtrip u0 u1 u2 : Translation_fitV (Hu ROps (Translation_H ROps) (u0 :: u1 :: u2 :: nil)) = (u0,u1,u2).
-Proof. exact (Translation_fitV_roundtrip u0 u1 u2). Qed.
-Print Assumptions C05_Translation_fitV_roundtrip.
-
-Theorem C05_Screw_fit_roundtrip pitch q : pitch <> 0 -> Screw_fitT ROps pitch (snd (Screw_X ROps pitch q)) = q.
-Proof. exact (Screw_fit_roundtrip pitch q). Qed.
-Print Assumptions C05_Screw_fit_roundtrip.
-
-Theorem C05_Screw_fitV_roundtrip pitch u : pitch <> 0 -> Screw_fitV ROps pitch (Hu ROps (Screw_H ROps pitch) (u :: nil)) = u.
-Proof. exact (Screw_fitV_roundtrip pitch u). Qed.
-Print Assumptions C05_Screw_fitV_roundtrip.
-
-Theorem C05_Pin_fit_roundtrip_cs c s : c*c + s*s = 1 -> Pin_X ROps (Pin_fitR ROps (Rz ROps c s)) = (Rz ROps c s, (0,0,0)).
-Proof. exact (Pin_fit_roundtrip_cs c s). Qed.
-Print Assumptions C05_Pin_fit_roundtrip_cs.
-
-Theorem C05_Pin_fit_roundtrip q : Pin_X ROps (Pin_fitR ROps (fst (Pin_X ROps q))) = Pin_X ROps q.
-Proof. exact (Pin_fit_roundtrip q). Qed.
-Print Assumptions C05_Pin_fit_roundtrip.
-
-Theorem C05_Pin_fitW_roundtrip u : Pin_fitW (Hu ROps (Pin_H ROps) (u :: nil)) = u.
-Proof. exact (Pin_fitW_roundtrip u). Qed.
-Print Assumptions C05_Pin_fitW_roundtrip.
-
-Theorem C05_Planar_fit_roundtrip q0 q1 q2 : Planar_X ROps (Planar_fitX ROps (Planar_X ROps (q0,q1,q2))) = Planar_X ROps (q0,q1,q2).
-Proof. exact (Planar_fit_roundtrip q0 q1 q2). Qed.
-Print Assumptions C05_Planar_fit_roundtrip.
-
-Theorem C05_Planar_fitV_roundtrip u0 u1 u2 : Planar_fitV (Hu ROps (Planar_H ROps) (u0 :: u1 :: u2 :: nil)) = (u0,u1,u2).
-Proof. exact (Planar_fitV_roundtrip u0 u1 u2). Qed.
-Print Assumptions C05_Planar_fitV_roundtrip.
-
-Theorem C05_Cylinder_fit_roundtrip q0 q1 : Cylinder_X ROps (Cylinder_fitX ROps (Cylinder_X ROps (q0,q1))) = Cylinder_X ROps (q0,q1).
-Proof. exact (Cylinder_fit_roundtrip q0 q1). Qed.
-Print Assumptions C05_Cylinder_fit_roundtrip.
-
-Theorem C05_Cylinder_fitV_roundtrip u0 u1 : Cylinder_fitV (Hu ROps (Cylinder_H ROps) (u0 :: u1 :: nil)) = (u0,u1).
-Proof. exact (Cylinder_fitV_roundtrip u0 u1). Qed.
-Print Assumptions C05_Cylinder_fitV_roundtrip.
-
-Theorem C05_xyz_angles_Rxyz_partial q0 q1 q2 : 0 < cos q1 ->
-  let a := xyz_angles ROps (Rxyz ROps (q0,q1,q2)) in
-  (cos (v3_0 a) = cos q0 /\ sin (v3_0 a) = sin q0) /\ (cos (v3_1 a) = cos q1 /\ sin (v3_1 a) = sin q1) /\ (cos (v3_2 a) = cos q2 /\ sin (v3_2 a) = sin q2).
-Proof. exact (xyz_angles_Rxyz_partial q0 q1 q2). Qed.
-Print Assumptions C05_xyz_angles_Rxyz_partial.
-
-Theorem C05_Gimbal_fit_roundtrip_partial q0 q1 q2 : 0 < cos q1 ->
-  Gimbal_X ROps (Gimbal_fitR ROps (fst (Gimbal_X ROps (q0,q1,q2)))) = Gimbal_X ROps (q0,q1,q2).
-Proof. exact (Gimbal_fit_roundtrip_partial q0 q1 q2). Qed.
-Print Assumptions C05_Gimbal_fit_roundtrip_partial.
-
-Theorem C05_Gimbal_fitW_roundtrip q0 q1 q2 u0 u1 u2 : cos q1 <> 0 ->
-  Gimbal_fitW ROps (q0,q1,q2) (Hu ROps (Gimbal_H ROps (q0,q1,q2)) (u0 :: u1 :: u2 :: nil)) = (u0,u1,u2).
-Proof. exact (Gimbal_fitW_roundtrip q0 q1 q2 u0 u1 u2). Qed.
-Print Assumptions C05_Gimbal_fitW_roundtrip.
-
-Theorem C05_Universal_fitW_roundtrip q0 q1 u0 u1 :
-  Universal_fitW ROps (q0,q1) (Hu ROps (Universal_H ROps (q0,q1)) (u0 :: u1 :: nil)) = (u0,u1).
-Proof. exact (Universal_fitW_roundtrip q0 q1 u0 u1). Qed.
-Print Assumptions C05_Universal_fitW_roundtrip.
-
-Theorem C05_BendStretch_fitV_roundtrip q0 q1 u0 u1 : q1 <> 0 ->
-  BendStretch_fitV ROps (q0,q1) (Hu ROps (BendStretch_H ROps (q0,q1)) (u0 :: u1 :: nil)) = (u0,u1).
-Proof. exact (BendStretch_fitV_roundtrip q0 q1 u0 u1). Qed.
-Print Assumptions C05_BendStretch_fitV_roundtrip.
-
-Theorem C05_Ball_fitW_roundtrip u0 u1 u2 : Ball_fitW (Hu ROps (Ball_H ROps) (u0 :: u1 :: u2 :: nil)) = (u0,u1,u2).
-Proof. exact (Ball_fitW_roundtrip u0 u1 u2). Qed.
-Print Assumptions C05_Ball_fitW_roundtrip.
-
-Theorem C05_Free_fitV_roundtrip u0 u1 u2 u3 u4 u5 : Free_fitV (Hu ROps (Free_H ROps) (u0::u1::u2::u3::u4::u5::nil)) = ((u0,u1,u2),(u3,u4,u5)).
-Proof. exact (Free_fitV_roundtrip u0 u1 u2 u3 u4 u5). Qed.
-Print Assumptions C05_Free_fitV_roundtrip.
-
-Theorem C05_Line_fitW_roundtrip R u0 u1 : is_rot R -> Line_fitW ROps R (Hu ROps (Line_H ROps R) (u0 :: u1 :: nil)) = (u0,u1).
-Proof. exact (Line_fitW_roundtrip R u0 u1). Qed.
-Print Assumptions C05_Line_fitW_roundtrip.
-
-Theorem C05_Sph_fitV_roundtrip az0 s0 ze0 s1 ax s2 q0 q1 q2 u0 u1 u2 : s0*s0 = 1 -> s1*s1 = 1 -> s2*s2 = 1 ->
-  let o := mkSc az0 s0 ze0 s1 ax s2 in
-  Sph_fitV ROps o (q0,q1,q2) (Hu ROps (Sph_H ROps o (q0,q1,q2)) (u0 :: u1 :: u2 :: nil)) = (u0,u1,u2).
-Proof. exact (Sph_fitV_roundtrip az0 s0 ze0 s1 ax s2 q0 q1 q2 u0 u1 u2). Qed.
-Print Assumptions C05_Sph_fitV_roundtrip.
-
-Theorem C05_Sph_fitT_roundtrip az0 s0 ze0 s1 ax s2 q0 q1 q2 : s2*s2 = 1 ->
-  let o := mkSc az0 s0 ze0 s1 ax s2 in Sph_fitT ROps o (q0,q1,q2) (snd (Sph_X ROps o (q0,q1,q2))) = q2.
-Proof. exact (Sph_fitT_roundtrip az0 s0 ze0 s1 ax s2 q0 q1 q2). Qed.
-Print Assumptions C05_Sph_fitT_roundtrip.
-
-Theorem C05_quat_branch_Rquat (k : nat) e0 e1 e2 e3' : e0*e0+e1*e1+e2*e2+e3'*e3' = 1 ->
-  quat_branch ROps k (Rquat ROps (e0,e1,e2,e3')) =
-  v4_scale ROps (4 * match k with O => e0 | S O => e1 | S (S O) => e2 | _ => e3' end) (e0,e1,e2,e3').
-Proof. exact (quat_branch_Rquat k e0 e1 e2 e3'). Qed.
-Print Assumptions C05_quat_branch_Rquat.
-
-Theorem C05_quat_pick_nonzero e0 e1 e2 e3' : e0*e0+e1*e1+e2*e2+e3'*e3' = 1 ->
-  match quat_pick ROps (Rquat ROps (e0,e1,e2,e3')) with O => e0 | S O => e1 | S (S O) => e2 | _ => e3' end <> 0.
-Proof. exact (quat_pick_nonzero e0 e1 e2 e3'). Qed.
-Print Assumptions C05_quat_pick_nonzero.
-
-Theorem C05_quat_normalise_same_rotation q : v4_normSqr ROps q <> 0 -> quatR ROps (quat_normalise ROps q) = quatR ROps q.
-Proof. exact (quat_normalise_same_rotation q). Qed.
-Print Assumptions C05_quat_normalise_same_rotation.
-
-Theorem C05_Ball_fit_roundtrip_q e0 e1 e2 e3' : e0*e0+e1*e1+e2*e2+e3'*e3' = 1 ->
-  quatR ROps (Ball_fitRq ROps (Rquat ROps (e0,e1,e2,e3'))) = Rquat ROps (e0,e1,e2,e3').
-Proof. exact (Ball_fit_roundtrip_q e0 e1 e2 e3'). Qed.
-Print Assumptions C05_Ball_fit_roundtrip_q.
-
-Theorem C05_Free_fit_roundtrip_q e0 e1 e2 e3' p : e0*e0+e1*e1+e2*e2+e3'*e3' = 1 ->
-  let X := Free_Xq ROps (e0,e1,e2,e3') p in
-  Free_Xq ROps (Ball_fitRq ROps (Rquat ROps (e0,e1,e2,e3'))) (snd X) = X.
-Proof. exact (Free_fit_roundtrip_q e0 e1 e2 e3' p). Qed.
-Print Assumptions C05_Free_fit_roundtrip_q.
-
-Theorem C05_BendStretch_fit_negative_stretch_refuted :
-  exists q0 q1, BendStretch_X ROps (BendStretch_fitT ROps (snd (BendStretch_X ROps (q0,q1)))) <> BendStretch_X ROps (q0,q1).
-Proof. exact (@BendStretch_fit_negative_stretch_refuted). Qed.
-Print Assumptions C05_BendStretch_fit_negative_stretch_refuted.
-
-Theorem C05_Ell_fitV_refuted : exists r R u0 u1 u2, is_rot R /\
-  Ell_fitV ROps r R (Hu ROps (Ell_H ROps r R) (u0 :: u1 :: u2 :: nil)) <> (u0,u1,u2).
-Proof. exact (@Ell_fitV_refuted). Qed.
-Print Assumptions C05_Ell_fitV_refuted.
-
-Theorem C05_Ell_fitV_sphere_roundtrip a R u0 u1 u2 : a <> 0 -> is_rot R ->
-  Ell_fitV ROps (a,a,a) R (Hu ROps (Ell_H ROps (a,a,a) R) (u0 :: u1 :: u2 :: nil)) = (u0,u1,u2).
-Proof. exact (Ell_fitV_sphere_roundtrip a R u0 u1 u2). Qed.
-Print Assumptions C05_Ell_fitV_sphere_roundtrip.
-
